@@ -99,6 +99,10 @@ func run(c *core.Ctx) error {
 	c.Cov("states", int(tot.States))
 	c.Cov("transitions", int(tot.Transitions))
 	c.Cov("tlc_runs", tot.Runs)
+	c.Cov("distinct_opcodes_interpreted", len(tot.Ops))
+	if len(tot.Ops) < 60 {
+		return core.Inconclusivef("only %d distinct opcodes were interpreted: the corpus is vacuous", len(tot.Ops))
+	}
 	c.Cov("max_behaviour_depth", tot.Depth)
 	c.Cov("traces_validated_against_impl", clean+len(findings))
 	c.Cov("functions_verified_clean", clean)
